@@ -25,6 +25,9 @@ type Opt struct {
 	Infix          bool
 	Costs          map[string]float64
 	CostsName      string
+	// Stateless: the pure harness operators (p q g h d cat) are declared in
+	// Config.StatelessOperators
+	Stateless bool
 }
 
 func (o Opt) OptBits() int {
@@ -77,6 +80,9 @@ func (o Opt) String() string {
 	}
 	if o.CostsName != "" {
 		s += "+costs:" + o.CostsName
+	}
+	if o.Stateless {
+		s += "+stateless-declared"
 	}
 	return s
 }
@@ -268,6 +274,13 @@ func (h *Harness) NewConfig(vars []term.VarDecl, o Opt) *eval.Config {
 	}
 	if o.Undef != 0 && o.Undef != 4 {
 		cfg.CompileOptions[eval.AllowUndefinedVariable] = true
+	}
+	if o.Stateless {
+		for _, n := range []string{"p", "q", "g", "h", "d", "cat"} {
+			if _, ok := cfg.OperatorMap[n]; ok {
+				cfg.StatelessOperators = append(cfg.StatelessOperators, n)
+			}
+		}
 	}
 	if o.Directive == 0 {
 		for _, x := range optNames {
